@@ -16,6 +16,10 @@
 (*   sub_lo_pos, sub_hi_neg        subnormal bound, same sign              *)
 (*   sub_lo_neg, sub_hi_pos, sub_both   subnormal bound, straddling        *)
 (*   equal, adjacent               max = min, max = next after min         *)
+(*   equal_sub, equal_zero, adjacent_sub   degenerate ranges at a subnormal *)
+(*                                 / a zero of either sign                 *)
+(*   minonly_sub, maxonly_sub      ONE subnormal bound (either sign), the  *)
+(*                                 other left to its default               *)
 (*   zero_lo (+0,x) zero_hi (x,-0) zero bound carrying the range's sign    *)
 (*   negzero_lo (-0,x) poszero_hi (x,+0)  zero bound of the other sign     *)
 (* With user bounds the flags include_infinity/nan/huge/nonnegative are    *)
@@ -28,7 +32,8 @@ VARIABLE s
 UserShapes == {"minonly_pos", "minonly_neg", "maxonly_pos", "maxonly_neg", "pos", "neg",
                "straddle", "straddle_lopsided", "minnormal_lo", "minnormal_hi",
                "sub_lo_pos", "sub_hi_neg", "sub_lo_neg", "sub_hi_pos", "sub_both",
-               "equal", "adjacent", "zero_lo", "zero_hi", "negzero_lo", "poszero_hi"}
+               "equal", "adjacent", "zero_lo", "zero_hi", "negzero_lo", "poszero_hi",
+               "equal_sub", "equal_zero", "adjacent_sub", "minonly_sub", "maxonly_sub"}
 
 Default == [b : {"none"}, sz : SizeClasses, fmt : Fmts, inf : BOOLEAN, zero : BOOLEAN,
             sub : BOOLEAN, nan : BOOLEAN, huge : BOOLEAN, nonneg : BOOLEAN, unique : BOOLEAN]
